@@ -309,6 +309,16 @@ def run(ctx):
         C.check(bool(inner) and bool(tests) and somes >= 1 and not bad, 'C03-MUST-enumerate', 'ArxmlFileElementsDfsIterator::next|every-result-passed-the-membership-test', 'the file-scoped depth-first iterator can hand out an element that was not tested for membership in the file '
                 '(the candidate found after skipping a foreign subtree is returned as it is): elements of other files show up in file.elements_dfs() and in the serialized text of the file', fi.where(bad[0]) if bad else '%s:%d' % (fi.file, fi.line),
                 sample={'fn': 'ArxmlFileElementsDfsIterator::next', 'results': somes, 'membership_tests': len(tests)})
+    # a move takes the element out of its old parent before it links it below the new one, on every path (an element listed by two
+    # parents is not a tree; the removal must not sit behind a try-lock or a lookup whose failure is ignored)
+    for fn in ('ElementRaw::move_element_local', 'ElementRaw::move_element_full'):
+        mb = P.get(fn)
+        ops_ = E.content_ops(mb)
+        ins_ = [o['pos'] for o in ops_ if o['kind'] == 'insert' and o['item'] == 'Element']
+        rem_ = [o['pos'] for o in ops_ if o['kind'] == 'remove']
+        C.check(bool(ins_) and bool(rem_) and all(must_pass(mb, (0, 0), [i_], through=set(rem_)) for i_ in ins_), 'C03-PAIR-link', '%s|unlinked-from-the-old-parent-before-linked' % fn.split('::')[-1],
+                '%s can link the moved element below its new parent on a path on which it was not removed from the content list of its old parent (removal skipped when a lock is not obtained or the element is not found): '
+                'the element is then listed by two parents' % fn, mb.where(ins_[0]) if ins_ else '%s:%d' % (mb.file, mb.line), sample={'fn': fn, 'event': 'content.insert(Element)', 'partner': 'old parent content.remove on every path before'})
     # position() and get_sub_element_at() index the same sequence - the content list of the parent, text items of mixed content included
     C.rule('C03-SIB-position', 'Element::position counts over the parent\'s ElementRaw.content itself (not over a filtered view such as sub_elements()), the list that get_sub_element_at / create_*_at / move_*_at index')
     ep = P.get('Element::position')
